@@ -7,7 +7,7 @@ use nom::{
     branch::alt,
     bytes::complete::{tag, take, take_till},
     character::complete::{alpha1, anychar, digit1, hex_digit1, multispace0},
-    combinator::{eof, iterator, map, peek},
+    combinator::{eof, iterator, map, opt, peek},
     multi::many0,
     sequence::{delimited, pair, preceded, terminated},
 };
@@ -321,7 +321,8 @@ struct Comment;
 impl Lexer for Comment {
     fn lex(input: Span) -> IResult {
         let start = input.location_offset();
-        let (input, comment) = delimited(tag("//"), take_till(|c| c == '\n'), tag("\n"))(input)?;
+        let (input, comment) =
+            delimited(tag("//"), take_till(|c| c == '\n'), opt(tag("\n")))(input)?;
         let end = input.location_offset();
         Ok((
             input,
